@@ -86,6 +86,19 @@ class Lay:
     def node(self, n, env):
         k = n.get("k")
         if k == "call":
+            c = n.get("callee") or {}
+            if re.search(r"^std::iter::Iterator::(map|for_each|try_for_each|filter_map|flat_map|map_while|inspect|fold|try_fold|find_map|any|all|scan)$", c.get("def", "")):
+                # `iter.map(|x| BODY)…`: the closure runs once per element -- a loop over BODY, like `for x in iter { BODY }`
+                cur = {((), None)}
+                for sn in n.get("sub", []):
+                    if sn.get("k") == "closure":
+                        body = self.nodes(sn["body"], env)
+                        seqs = {s_ for (s_, t_) in body if t_ != "abort"}
+                        if any(seqs - {()}):
+                            cur = self._seq(cur, {((("loop", frozenset(seqs - {()})),), None)})
+                    else:
+                        cur = self._seq(cur, self.node(sn, env))
+                return cur
             cur = self.nodes(n.get("sub", []), env)
             return self._seq(cur, self.call(n, env))
         if k == "match":
